@@ -220,9 +220,17 @@ loop:
 				}
 
 				if ad.conn != nil {
-					// dial to this addr was successful, complete the request
-					req.resch <- dialResponse{conn: ad.conn}
-					continue loop
+					if !ad.conn.IsClosed() {
+						// dial to this addr was successful, complete the request
+						req.resch <- dialResponse{conn: ad.conn}
+						continue loop
+					}
+					// The connection that dial produced has been closed since.
+					// Forget the dial and try the address again for this request
+					// instead of handing out a dead connection.
+					delete(w.trackedDials, string(adelay.Addr.Bytes()))
+					todial = append(todial, adelay.Addr)
+					continue
 				}
 
 				if ad.err != nil {
